@@ -52,6 +52,12 @@ def parseLabelOptSuffix : P String := fun i =>
 
 def digitsVal (ds : List Char) : Nat := ds.foldl (fun acc c => acc * 10 + (c.toNat - '0'.toNat)) 0
 
+/-- The exponent digits as `core::num::dec2flt::parse::parse_scientific` reads them: a digit is taken
+into account only while the value so far is below `0x10000` ("saturate well before overflow"), so the
+result is at most 655359 however long the digit string is. -/
+def expDigitsVal (ds : List Char) : Nat :=
+  ds.foldl (fun acc c => if acc < 65536 then acc * 10 + (c.toNat - '0'.toNat) else acc) 0
+
 def lowerChar (c : Char) : Char := if 'A' ≤ c && c ≤ 'Z' then Char.ofNat (c.toNat + 32) else c
 
 /-- Case-insensitive tag. -/
@@ -93,11 +99,11 @@ def parseFloat : P Float := fun i =>
             | _ => (false, r)
           let ed := r1.takeWhile isDigit
           if ed.isEmpty then (0, rest)   -- winnow: cut error; acceptance is unaffected (see header)
-          else ((if eneg then -(digitsVal ed : Int) else (digitsVal ed : Int)), r1.drop ed.length)
+          else ((if eneg then -(expDigitsVal ed : Int) else (expDigitsVal ed : Int)), r1.drop ed.length)
         else (0, rest)
       | [] => (0, rest)
-    -- keep the exponent bounded for the exact conversion; out-of-range values saturate
-    let exp := if exp > 100000 then 100000 else if exp < -100000 then -100000 else exp
+    -- (the written exponent saturates as in Rust's `parse_scientific`; `decToFloat` is exact for
+    -- every integer exponent, so nothing else is clamped)
     some (decToFloat neg (digitsVal (ip ++ fp)) (exp - fp.length), rest')
   | none =>
     -- "nan" | [+-]? "infinity" | [+-]? "inf"   (caseless)
